@@ -7,6 +7,8 @@ use isomdl::definitions::device_request::ItemsRequest;
 use isomdl::presentation::authentication::{RequestAuthenticationOutcome, ResponseAuthenticationOutcome};
 use rand::Rng;
 
+use std::collections::BTreeMap;
+
 pub struct Hist {
     pub sim: Sim,
     pub tag: String,
@@ -15,6 +17,7 @@ pub struct Hist {
     pub to_rdr: Vec<(Vec<u8>, String)>,
     pub extra: Vec<u32>,
     pub ops: Vec<String>,
+    pub saved_ops_len: BTreeMap<u32, usize>,
     pub last_req_outcome: Option<RequestAuthenticationOutcome>,
     pub last_resp_outcome: Option<ResponseAuthenticationOutcome>,
     /// harness-side count of encryptions per direction (ISO oracle for Spec(real))
@@ -54,7 +57,7 @@ pub fn status_only(k: u8) -> Vec<u8> {
 
 impl Hist {
     pub fn start(ctx: &mut Ctx, sim: Sim, tag: &str) -> Hist {
-        let mut h = Hist { sim, tag: tag.into(), to_dev: vec![], to_rdr: vec![], extra: vec![], ops: vec![],
+        let mut h = Hist { sim, tag: tag.into(), to_dev: vec![], to_rdr: vec![], extra: vec![], ops: vec![], saved_ops_len: Default::default(),
                            last_req_outcome: None, last_resp_outcome: None, n_enc_r: 1, n_enc_d: 0, spec13: false, saved: Default::default(), win_dev: (1, 0), win_rdr: (0, 0) };
         let d = h.sim.describe(&h.sim.establishment.clone(), &[]);
         h.to_dev.push((h.sim.establishment.clone(), d));
@@ -265,6 +268,7 @@ impl Hist {
         use isomdl::presentation::Stringify;
         self.saved.insert(k, (self.sim.dev.stringify().unwrap(), self.sim.rdr.stringify().unwrap(), self.win_dev, self.win_rdr, self.n_enc_r, self.n_enc_d));
         self.emit(ctx, format!("sess.save {k}"), "saved".into());
+        self.saved_ops_len.insert(k, self.ops.len());
     }
     pub fn load_slot(&mut self, ctx: &mut Ctx, k: u32) {
         use isomdl::presentation::Stringify;
@@ -273,6 +277,8 @@ impl Hist {
         self.sim.dev = isomdl::presentation::device::SessionManager::parse(d).unwrap();
         self.sim.rdr = isomdl::presentation::reader::SessionManager::parse(r).unwrap();
         self.win_dev = wd; self.win_rdr = wr;
+        // the recorded history is a replayable script: returning to a saved state forgets what was tried after it
+        if let Some(n) = self.saved_ops_len.get(&k) { self.ops.truncate(*n); }
         let real = self.sim.summary();
         self.emit(ctx, format!("sess.load {k}"), real);
     }
